@@ -83,6 +83,15 @@ type B struct {
 	res     Result
 	ntSet   map[uint64]struct{}
 	maxSamp int
+
+	autoSamples []any
+}
+
+func clipS(s string, n int) string {
+	if len(s) > n {
+		return s[:n] + "…"
+	}
+	return s
 }
 
 func NewB(prop string, tier Tier, seed uint64, batch, nb int, journalPath string) (*B, error) {
@@ -139,6 +148,9 @@ func (b *B) Begin(input string) bool {
 		copy(b.journal[12:], input[:n])
 	}
 	b.res.Evaluations++
+	if b.ordinal == 7 || b.ordinal == 777 || b.ordinal == 77777 {
+		b.autoSamples = append(b.autoSamples, map[string]any{"case": fmt.Sprintf("batch %d #%d", b.Batch, b.ordinal), "input": clipS(input, 600)})
+	}
 	if b.Only > 0 {
 		fmt.Printf("REPLAY ordinal=%d input=%q\n", b.ordinal, input)
 	}
@@ -198,15 +210,13 @@ func (b *B) ViolateIn(sig, input, detail string) {
 		b.res.Violations[sig] = v
 	}
 	v.Count++
-	if len(v.Witnesses) < 3 {
-		if len(detail) > 2000 {
-			detail = detail[:2000] + "…"
-		}
-		if len(input) > 8000 {
-			input = input[:8000] + "…"
-		}
-		v.Witnesses = append(v.Witnesses, Witness{Ordinal: b.ordinal, Batch: b.Batch, Input: input, Detail: detail})
+	if len(detail) > 2000 {
+		detail = detail[:2000] + "…"
 	}
+	if len(input) > 8000 {
+		input = input[:8000] + "…"
+	}
+	v.Witnesses = AddWitness(v.Witnesses, Witness{Ordinal: b.ordinal, Batch: b.Batch, Input: input, Detail: detail})
 	if b.Only > 0 || b.Verbose {
 		fmt.Printf("VIOLATED sig=%s\n  input=%q\n  detail=%s\n", sig, input, detail)
 	}
@@ -215,6 +225,9 @@ func (b *B) ViolateIn(sig, input, detail string) {
 // Finish writes the result file (and the non-trivial hash file next to it).
 func (b *B) Finish(outPath string) error {
 	b.res.Done = true
+	if len(b.res.Samples) == 0 {
+		b.res.Samples = b.autoSamples
+	}
 	hs := make([]uint64, 0, len(b.ntSet))
 	for h := range b.ntSet {
 		hs = append(hs, h)
@@ -255,4 +268,17 @@ func ReadResult(outPath string) (*Result, error) {
 		}
 	}
 	return &r, nil
+}
+
+// AddWitness keeps the three shortest witnesses (shortest first).
+func AddWitness(ws []Witness, w Witness) []Witness {
+	if len(ws) == 3 && len(w.Input) >= len(ws[2].Input) {
+		return ws
+	}
+	ws = append(ws, w)
+	sort.SliceStable(ws, func(i, j int) bool { return len(ws[i].Input) < len(ws[j].Input) })
+	if len(ws) > 3 {
+		ws = ws[:3]
+	}
+	return ws
 }
